@@ -69,10 +69,14 @@ def item(kind, pos, s):
         d = {"jsonrpc": "2.0", "id": "d%d" % pos, "result": {"s": s, "deep": [None, {"k": s}]}}
         return d, d
     if kind == K_RAW_COMPACT:
+        # already serialised by the caller, non-ASCII left raw (ensure_ascii=False), one line
         d = {"jsonrpc": "2.0", "id": pos, "method": "raw", "params": {"s": s}}
-        return _json.dumps(d), d
+        return _json.dumps(d, ensure_ascii=False), d
     if kind == K_RAW_PRETTY:
-        return PRETTY, _json.loads(PRETTY)
+        # pretty-printed by the caller (line breaks between tokens, CRLF in one place), payload raw inside the literals
+        d = {"jsonrpc": "2.0", "id": pos, "method": "pre/serialised", "params": {"k": [1, 2], "s": s, "t": " " + s + " "}}
+        txt = _json.dumps(d, indent=2, ensure_ascii=False).replace("[\n", "[\r\n", 1)
+        return txt, d
     if kind == K_UNSER_SET:
         return {"jsonrpc": "2.0", "method": "bad", "params": {"s": {1, 2}, "f": lambda: 0}}, None
     if kind == K_NODUMP:
